@@ -42,6 +42,18 @@ func genC17(t *rapid.T) *world.Plan {
 		// the request itself is lost
 		p.Net = append(p.Net, world.NetFault{Idx: 0, Kind: "drop"})
 	}
+	// stray messages: while the node waits, its counterparty sends messages for this swap that
+	// the waiting state does not accept (and stays silent otherwise); the wait must still end
+	if rapid.IntRange(0, 2).Draw(t, "stray") == 0 {
+		wrongAgreement := "agreement-out"
+		if op.Kind == "swapout" {
+			wrongAgreement = "agreement-in"
+		}
+		for i, k := 0, rapid.IntRange(1, 2).Draw(t, "nstray"); i < k; i++ {
+			p.Adv = append(p.Adv, world.AdvMove{Kind: "inject", AtMs: op.AtMs + pick(t, "strayat", []int{200, 2000, 30000, 200000, 400000}),
+				Arg: pick(t, "straytpl", []string{"opening", "coop", wrongAgreement}), N: int64(waiting), M: int64(1 - waiting)})
+		}
+	}
 	// restarts of the waiting node while it waits
 	for i, n := 0, rapid.IntRange(0, 2).Draw(t, "restarts"); i < n; i++ {
 		at := op.AtMs + rapid.IntRange(1_000, 580_000).Draw(t, "restart_at")
